@@ -150,6 +150,7 @@ def check(ctx):
     check_expected(ctx)
     check_open(ctx)
     check_log_file(ctx)
+    c03.check_replay_set(ctx)      # replayed logs keep their numbers reserved (no older log may outrank a newer one)
     from . import c02
     c02.check_manifest(ctx)    # MANIFEST record durable before CURRENT names it (a crash inside recovery must stay recoverable)
     c17.check_current(ctx)
